@@ -78,6 +78,7 @@ def run_mean(case, bus, ex):
     it = zoo.make_intent(rng, name, D, N, variant=v, order=order, dt=dt)
     if name.startswith("stepper.NavierStokes") and v % 2 == 1 and rng.uniform() < 0.5:
         it["kw"]["drag"] = 0.0
+    zoo.vary_contour(rng, it, prob=0.25)
     flags = tuple(sorted((k, x) for k, x in it["kw"].items() if isinstance(x, bool)))
     sig = (name, flags, D, N % 2, order)
     if not mean_applicable(it):
@@ -240,12 +241,21 @@ def run_fixed(case, bus, ex):
     rng = env.rng_for(*case["rs"])
     name, D, N, order = case["cls"], case["D"], case["N"], case["order"]
     it = zoo.make_intent(rng, name, D, N, variant=case["v"], order=order, dt=float(10 ** rng.uniform(-2.5, -0.5)))
+    zoo.vary_contour(rng, it, prob=0.4)
     st = zoo.build(ex, it)
     flags = tuple(sorted((k, x) for k, x in it["kw"].items() if isinstance(x, bool)))
     for label, ustar, growth in equilibria(it, rng):
         dt = it.get("dt", 1.0)
-        if growth * dt > 5:
-            bus.outside("fixed_point", "growth*dt > 5")
+        # explicit treatment of the convective term: rounding noise in the retained band is advected with speed |b u*|; its per-step amplification is
+        # bounded by exp(dt |b| |u*| k_band) (a property of the scheme at large convective CFL numbers, not of the fixed point)
+        kw = it["kw"]
+        bscale = abs(kw.get("convection_scale", kw.get("vorticity_convection_scale", 0.0)))
+        if it["cls"] in ("generic.GeneralNonlinearStepper",):
+            bscale = abs(kw["nonlinear_coefficients"][1]) + abs(kw["nonlinear_coefficients"][0])
+        Kb = max(1, int(np.floor(kw.get("dealiasing_fraction", 2 / 3) * (N // 2) - 1 + 1e-9)))
+        growth = growth + bscale * max(abs(x) for x in ustar) * (2 * np.pi / it.get("L", 1.0)) * Kb
+        if growth * dt > 2:
+            bus.outside("fixed_point", "growth*dt > 2: rounding noise would be amplified by the dynamics / the explicit convective term")
             continue
         C = len(ustar)
         u0 = np.broadcast_to(np.asarray(ustar, float).reshape((C,) + (1,) * D), (C,) + (N,) * D).copy()
@@ -257,7 +267,7 @@ def run_fixed(case, bus, ex):
             worst = max(worst, float(np.max(np.abs(np.asarray(cur) - u0))))
         S = max(1.0, float(np.max(np.abs(u0))))
         amp = np.exp(min(growth * dt * nsteps, 50.0))
-        bus.judge("fixed_point", worst / S, 512 * EPS * nsteps * amp * (1 + np.log2(N ** D)), (name, flags, D, N % 2, order, label),
+        bus.judge("fixed_point", worst / S, 512 * EPS * nsteps * amp * (1 + np.log2(N ** D)) * max(1.0, float(np.exp(it["kw"].get("circle_radius", 1.0)))), (name, flags, D, N % 2, order, label, it["kw"].get("circle_radius", 1.0)),
                   sample=dict(intent=it, equilibrium=label, value=ustar), witness=dict(intent=it, equilibrium=label, value=ustar, drift=worst), nontrivial=any(abs(x) > 0 for x in ustar))
 
 
